@@ -80,6 +80,15 @@ type elecOut struct {
 	id     *ID
 	master string
 }
+
+// String renders the value without pointer addresses (outcome classes must be comparable across executions).
+func (o elecOut) String() string {
+	if o.id == nil {
+		return fmt.Sprintf("{err=%v id=none master=%q}", o.err, o.master)
+	}
+	return fmt.Sprintf("{err=%v id=%v master=%q}", o.err, *o.id, o.master)
+}
+
 type elecState struct {
 	max    *ID
 	master string
@@ -299,6 +308,10 @@ func exploreCost(rep *report.Report, name string, body func(), check func(*rt.Ex
 	if res.EngineError != "" {
 		rep.EngineError("%s: %s", name, res.EngineError)
 	}
+	if res.CacheDiff != "" {
+		rep.Set("cache_selftest:"+name, res.CacheDiff)
+	}
+	rep.Add("pruned_at_visited_states", res.Pruned)
 	rep.Add("states", res.Execs)
 	rep.Add("transitions", res.Steps)
 	rep.Add("traces_validated_against_impl", res.Execs)
@@ -352,6 +365,8 @@ type scenario struct {
 	name  string
 	body  func()
 	check func(x *rt.Exec) []mc.Fail
+	// lessBound lowers the deviation bound of an expensive scenario (quick 2-lessBound, thorough 3-lessBound).
+	lessBound int
 }
 
 func stamped(id uint64, ni string, t spb.AFTOperation_Operation, e proto.Message, el ID) *spb.AFTOperation {
@@ -385,13 +400,17 @@ func doModify(s *server.Server, sid string, ops ...*spb.AFTOperation) {
 	}
 }
 
-func getAll(s *server.Server, stub *wire.Stub) {
+// getAll reads everything. strict: the caller asserts that no Flush overlaps an ADD in the scenario, so that every
+// state a network instance passes through is closed under references within the instance (an ADD racing with a Flush
+// can legitimately leave a group without its next-hop: C11 exempts modifications that a Flush overlaps).
+func getAll(s *server.Server, stub *wire.Stub, strict bool) {
 	st, err := stub.Get(context.Background(), &spb.GetRequest{NetworkInstance: &spb.GetRequest_All{All: &spb.Empty{}}, Aft: spb.AFTType_ALL})
 	if err != nil {
 		rt.Emit("get-error", err.Error())
 		return
 	}
 	n := 0
+	got := ribx.NewModel()
 	for {
 		r, err := st.Recv()
 		if err == io.EOF {
@@ -402,6 +421,50 @@ func getAll(s *server.Server, stub *wire.Stub) {
 			return
 		}
 		n += len(r.GetEntry())
+		for _, e := range r.GetEntry() {
+			var k ribx.Kind
+			var key string
+			var p proto.Message
+			switch t := e.GetEntry().(type) {
+			case *spb.AFTEntry_Ipv4:
+				k, key, p = ribx.V4, t.Ipv4.GetPrefix(), t.Ipv4
+			case *spb.AFTEntry_Ipv6:
+				k, key, p = ribx.V6, t.Ipv6.GetPrefix(), t.Ipv6
+			case *spb.AFTEntry_Mpls:
+				k, key, p = ribx.MPLS, fmt.Sprint(t.Mpls.GetLabelUint64()), t.Mpls
+			case *spb.AFTEntry_NextHopGroup:
+				k, key, p = ribx.NHG, fmt.Sprint(t.NextHopGroup.GetId()), t.NextHopGroup
+			case *spb.AFTEntry_NextHop:
+				k, key, p = ribx.NH, fmt.Sprint(t.NextHop.GetIndex()), t.NextHop
+			default:
+				continue
+			}
+			if got.Has(e.GetNetworkInstance(), k, key) {
+				rt.Emit("get-inconsistent", fmt.Sprintf("duplicate: the stream carries %s %s of %s twice", k, key, e.GetNetworkInstance()))
+			}
+			got.Set(e.GetNetworkInstance(), k, key, p)
+		}
+	}
+	// Each network instance is read under its lock, and every state a network instance passes through is closed
+	// under references within the instance (C02): what a Get returns for one instance must be one of those states,
+	// so it cannot contain an entry whose group / next-hop of the SAME instance is missing from it.
+	var bad []string
+	for id, e := range got.E {
+		for _, r := range ribx.Refs(e.NI, e.Payload) {
+			if r.NI == e.NI && !got.Has(r.NI, r.Kind, r.Key) {
+				bad = append(bad, fmt.Sprintf("%s references %s %s which the same Get did not return", id, r.Kind, r.Key))
+			}
+		}
+	}
+	var ks []string
+	for id := range got.E {
+		ks = append(ks, id)
+	}
+	sort.Strings(ks)
+	rt.Emit("get-keys", strings.Join(ks, " "))
+	if len(bad) > 0 && strict {
+		sort.Strings(bad)
+		rt.Emit("get-inconsistent", "the entries returned for one network instance were never installed together: "+strings.Join(bad, "; "))
 	}
 	rt.Emit("get-done", n)
 }
@@ -422,7 +485,7 @@ func afterwards(s *server.Server) {
 		return
 	}
 	doModify(s, sid, stamped(901, D, spb.AFTOperation_ADD, ribx.NHEntry(90, "9.0.0.1"), top), stamped(902, V, spb.AFTOperation_ADD, ribx.NHEntry(90, "9.0.0.2"), top))
-	getAll(s, wire.New(s))
+	getAll(s, wire.New(s), false)
 	if _, err := s.Flush(context.Background(), &spb.FlushRequest{NetworkInstance: &spb.FlushRequest_All{All: &spb.Empty{}}, Election: &spb.FlushRequest_Id{Id: top.Proto()}}); err != nil {
 		rt.Emit("afterwards-error", "flush: "+err.Error())
 	}
@@ -445,6 +508,9 @@ func scenarios() []scenario {
 	basic := func(x *rt.Exec) []mc.Fail {
 		fs := liveness(x)
 		for _, e := range x.Events {
+			if e.Label == "get-inconsistent" {
+				fs = append(fs, mc.Fail{Sig: "C11/get-result-is-no-snapshot-of-the-network-instance", What: "a Get concurrent with modifications: " + e.Val.(string)})
+			}
 			if e.Label == "afterwards-error" {
 				fs = append(fs, mc.Fail{Sig: "C11/server-unusable-after-concurrent-calls/" + strings.SplitN(e.Val.(string), ":", 2)[0], What: "after all concurrent calls returned a fresh session failed at " + e.Val.(string)})
 			}
@@ -482,7 +548,7 @@ func scenarios() []scenario {
 				defer wg.Done()
 				doModify(s, "p", stamped(1, D, spb.AFTOperation_ADD, nh1, one), stamped(2, D, spb.AFTOperation_ADD, g1, one), stamped(3, D, spb.AFTOperation_ADD, v4, one))
 			})
-			rt.Go("get", func() { defer wg.Done(); getAll(s, stub) })
+			rt.Go("get", func() { defer wg.Done(); getAll(s, stub, false) })
 			rt.Go("flush", func() {
 				defer wg.Done()
 				_, err := s.Flush(context.Background(), &spb.FlushRequest{NetworkInstance: &spb.FlushRequest_All{All: &spb.Empty{}}, Election: &spb.FlushRequest_Override{Override: &spb.Empty{}}})
@@ -622,7 +688,7 @@ func scenarios() []scenario {
 				_, err := s.Flush(context.Background(), &spb.FlushRequest{NetworkInstance: &spb.FlushRequest_Name{Name: D}, Election: &spb.FlushRequest_Id{Id: one.Proto()}})
 				rt.Emit("flush", fmt.Sprint(err))
 			})
-			rt.Go("get", func() { defer wg.Done(); getAll(s, stub) })
+			rt.Go("get", func() { defer wg.Done(); getAll(s, stub, true) })
 			wg.Wait()
 			afterwards(s)
 		}, check: basic},
@@ -680,6 +746,68 @@ func scenarios() []scenario {
 			doModify(s, "p", stamped(21, V, spb.AFTOperation_ADD, ribx.NHEntry(4, "4.4.4.4"), one), stamped(22, D, spb.AFTOperation_ADD, ribx.NHEntry(4, "4.4.4.4"), one))
 			afterwards(s)
 		}, check: basic},
+		{name: "S11-get-vs-chain-delete-by-one-writer", lessBound: 1, body: func() {
+			// one writer removes a whole chain in the only order the RIB accepts (entry, group, next-hop) while a Get
+			// reads: what the Get returns for the instance must be the contents at ONE instant, i.e. one of the four
+			// states the single writer produces - never a mixture of tables read at different instants.
+			s := newServer()
+			stub := wire.New(s)
+			primary(s, "p", one)
+			r := s.VerifRIB()
+			g2 := ribx.NHGEntry(2, 0, [2]uint64{2, 1})
+			v6 := ribx.V6Entry("2001:db8::/32", 2, "", nil)
+			for i, e := range []proto.Message{nh1, nh2, g1, g2, v4, v6} {
+				r.AddEntry(D, ribx.Op(uint64(i+1), D, spb.AFTOperation_ADD, e))
+			}
+			all := []string{"DEFAULT|nh|1", "DEFAULT|nh|2", "DEFAULT|nhg|1", "DEFAULT|nhg|2", "DEFAULT|v4|10.0.0.0/8", "DEFAULT|v6|2001:db8::/32"}
+			var instants []string
+			sort.Strings(all)
+			cur := append([]string{}, all...)
+			instants = append(instants, strings.Join(cur, " "))
+			for _, del := range []string{"DEFAULT|v4|10.0.0.0/8", "DEFAULT|nhg|1", "DEFAULT|nh|1"} {
+				var next []string
+				for _, k := range cur {
+					if k != del {
+						next = append(next, k)
+					}
+				}
+				cur = next
+				instants = append(instants, strings.Join(cur, " "))
+			}
+			rt.Emit("instants", instants)
+			var wg vsync.WaitGroup
+			wg.Add(2)
+			rt.GoPrio("deletes", 1, func() { // (background writer: by default it runs after the Get, one deviation puts it anywhere inside)
+				defer wg.Done()
+				doModify(s, "p", stamped(11, D, spb.AFTOperation_DELETE, v4, one), stamped(12, D, spb.AFTOperation_DELETE, g1, one), stamped(13, D, spb.AFTOperation_DELETE, nh1, one))
+			})
+			rt.Go("get", func() { defer wg.Done(); getAll(s, stub, true) })
+			wg.Wait()
+			afterwards(s)
+		}, check: func(x *rt.Exec) []mc.Fail {
+			fs := basic(x)
+			var instants []string
+			first := true
+			for _, e := range x.Events {
+				switch e.Label {
+				case "instants":
+					instants = e.Val.([]string)
+				case "get-keys":
+					if !first {
+						continue // (the Get of the epilogue)
+					}
+					first = false
+					ok := false
+					for _, in := range instants {
+						ok = ok || in == e.Val.(string)
+					}
+					if !ok {
+						fs = append(fs, mc.Fail{Sig: "C11/get-result-is-no-snapshot-of-the-network-instance", What: fmt.Sprintf("a Get concurrent with one writer returned {%s}, which is none of the states the instance passed through: %q", e.Val, instants)})
+					}
+				}
+			}
+			return fs
+		}},
 		{name: "S7-add-network-instance-vs-get-flush", body: func() {
 			s := newServer()
 			stub := wire.New(s)
@@ -689,7 +817,7 @@ func scenarios() []scenario {
 			var wg vsync.WaitGroup
 			wg.Add(3)
 			rt.Go("add-ni", func() { defer wg.Done(); rt.Emit("add-ni", fmt.Sprint(s.AddNetworkInstance("NEW"))) })
-			rt.Go("get", func() { defer wg.Done(); getAll(s, stub) })
+			rt.Go("get", func() { defer wg.Done(); getAll(s, stub, true) })
 			rt.Go("flush", func() {
 				defer wg.Done()
 				_, err := s.Flush(context.Background(), &spb.FlushRequest{NetworkInstance: &spb.FlushRequest_All{All: &spb.Empty{}}, Election: &spb.FlushRequest_Override{Override: &spb.Empty{}}})
@@ -713,7 +841,7 @@ func RunC11(rep *report.Report, tier string) {
 		names = append(names, sc.name)
 	}
 	base := os.Getenv("VERIF_RACE_LOG")
-	rep.Shards(names, 8, func(part string) []string {
+	rep.Shards(names, 12, func(part string) []string {
 		lp := base + "-" + part
 		return []string{"VERIF_RACE_LOG=" + lp, "GORACE=halt_on_error=0 exitcode=0 log_path=" + lp}
 	})
@@ -731,7 +859,7 @@ func ChildC11(rep *report.Report, tier, part string) {
 		if sc.name != part {
 			continue
 		}
-		exploreCost(rep, sc.name, sc.body, sc.check, bound, 1, dl)
+		exploreCost(rep, sc.name, sc.body, sc.check, bound-sc.lessBound, 1, dl)
 	}
 	for _, rr := range raceReports() {
 		rep.Violate("C11/data-race/"+rr.sig, rr.text, map[string]any{"scenario": part, "report": rr.text})
